@@ -97,3 +97,30 @@ pub fn oss(line: &str) -> String {
         None => "unrepresentable".to_string(),
     }
 }
+
+/// `secs nanos` as a `min_time`/`max_time` option read back through the
+/// accessors the sampling loop uses (`BenchOptions::min_time()`/`max_time()`),
+/// directly and after `overwrite` onto an empty layer (inheritance).
+pub fn durl(line: &str) -> String {
+    let t = toks(line);
+    let d = std::time::Duration::new(t[0].parse().unwrap(), t[1].parse().unwrap());
+    let mut o = divan::__private::BenchOptions::default();
+    o.min_time = Some(d);
+    o.max_time = Some(d);
+    let (lo, hi) = v::options_time_limits(&o);
+    let parent = divan::__private::BenchOptions::default();
+    let merged = v::options_overwrite(&o, &parent);
+    let (lo2, hi2) = v::options_time_limits(&merged);
+    if lo == hi && lo == lo2 && lo == hi2 {
+        format!("ok {lo}")
+    } else {
+        format!("differ min={lo} max={hi} inherited-min={lo2} inherited-max={hi2}")
+    }
+}
+
+/// Unset limits: floor 0, ceiling unbounded.
+pub fn durl_unset() -> String {
+    let o = divan::__private::BenchOptions::default();
+    let (lo, hi) = v::options_time_limits(&o);
+    format!("{lo} {}", if hi == u128::MAX { "max".to_string() } else { hi.to_string() })
+}
